@@ -5,6 +5,7 @@ wt=$1; sd=$2
 export CARGO_NET_OFFLINE=true CARGO_TARGET_DIR=$wt/target
 cd "$wt" || exit 2
 git checkout -q -- . ; rm -f tests/demo.rs
+made=0; [ -d tests ] || { mkdir tests; made=1; }
 cp "$sd/demo.rs" tests/demo.rs
 p=$(cargo test --test demo --offline 2>&1 | grep "^test result" | head -1)
 git apply "$sd/patch.diff" || { echo "patch does not apply"; git checkout -q -- .; rm -f tests/demo.rs; exit 3; }
@@ -12,5 +13,5 @@ s=$(cargo test --test demo --offline 2>&1 | grep "^test result" | head -1)
 rm -f tests/demo.rs
 u=$(cargo test --workspace --no-fail-fast --offline 2>&1 | grep "^test result" | awk '{p+=$4; f+=$6} END {print p" passed, "f" failed (all targets)"}')
 u1=$(cargo test --workspace --no-fail-fast --offline 2>&1 | grep "^test result" | sort -t' ' -k4 -n -r | head -1)
-git checkout -q -- .
+git checkout -q -- .; [ "$made" = 1 ] && rmdir tests 2>/dev/null
 echo "pristine demo: $p | seeded demo: $s | suite with change: $u1 | totals: $u"
